@@ -40,28 +40,45 @@ type e2eTable struct {
 var e2eStrings = []string{"a", "ab", "AB", "b", "abc", "", "é"}
 var e2eFloats = []float64{0.5, 1.5, 2.25, -1.5}
 
-func genE2ETable(r *lib.Rng) (e2eTable, []string) {
+// genE2ETable draws a table and the same data as a native file. kind "csv": typed columns a Int, s String, f Float,
+// ok Boolean, n Int|NULL (what the CSV source infers). kind "json": the JSON source reads every number as Float, so the
+// plugin declares a and n as Float / Float|NULL there.
+func genE2ETable(r *lib.Rng, kind string) (e2eTable, []string) {
+	num, mk := octosql.Int, func(k int64) octosql.Value { return octosql.NewInt(k) }
+	if kind == "json" {
+		num, mk = octosql.Float, func(k int64) octosql.Value { return octosql.NewFloat(float64(k)) }
+	}
 	t := e2eTable{TimeField: -1, Fields: []physical.SchemaField{
-		{Name: "a", Type: octosql.Int}, {Name: "s", Type: octosql.String}, {Name: "f", Type: octosql.Float},
-		{Name: "ok", Type: octosql.Boolean}, {Name: "n", Type: octosql.TypeSum(octosql.Int, octosql.Null)}}}
+		{Name: "a", Type: num}, {Name: "s", Type: octosql.String}, {Name: "f", Type: octosql.Float},
+		{Name: "ok", Type: octosql.Boolean}, {Name: "n", Type: octosql.TypeSum(num, octosql.Null)}}}
 	var lines []string
+	if kind == "csv" {
+		lines = append(lines, "a,s,f,ok,n")
+	}
 	n := 6 + r.Intn(6)
 	for i := 0; i < n; i++ {
 		a := int64(r.Intn(5)) - 1
 		s := e2eStrings[r.Intn(len(e2eStrings))]
+		if kind == "csv" && s == "" {
+			s = "x" // an empty CSV cell is NULL
+		}
 		fl := e2eFloats[r.Intn(len(e2eFloats))]
 		ok := r.Bool()
-		nv, njs := octosql.NewNull(), "null"
-		if i == 0 || r.Chance(2, 3) { // the first line fixes the JSON source's idea of the column: make it an int
+		nv, njs, ncsv := octosql.NewNull(), "null", ""
+		if i == 0 || r.Chance(2, 3) {
 			k := int64(r.Intn(3))
-			nv, njs = octosql.NewInt(k), fmt.Sprint(k)
+			nv, njs, ncsv = mk(k), fmt.Sprint(k), fmt.Sprint(k)
 		}
 		if i == 1 {
-			nv, njs = octosql.NewNull(), "null"
+			nv, njs, ncsv = octosql.NewNull(), "null", ""
 		}
-		t.Rows = append(t.Rows, []octosql.Value{octosql.NewInt(a), octosql.NewString(s), octosql.NewFloat(fl), octosql.NewBoolean(ok), nv})
-		sj, _ := json.Marshal(s)
-		lines = append(lines, fmt.Sprintf(`{"a": %d, "s": %s, "f": %v, "ok": %v, "n": %s}`, a, sj, fl, ok, njs))
+		t.Rows = append(t.Rows, []octosql.Value{mk(a), octosql.NewString(s), octosql.NewFloat(fl), octosql.NewBoolean(ok), nv})
+		if kind == "csv" {
+			lines = append(lines, fmt.Sprintf("%d,%s,%v,%v,%s", a, s, fl, ok, ncsv))
+		} else {
+			sj, _ := json.Marshal(s)
+			lines = append(lines, fmt.Sprintf(`{"a": %d, "s": %s, "f": %v, "ok": %v, "n": %s}`, a, sj, fl, ok, njs))
+		}
 	}
 	return t, lines
 }
@@ -200,33 +217,40 @@ func e2eCases(cf *lib.CaseFile, rng *lib.Rng, f lib.Flags) {
 		fail(err.Error())
 		return
 	}
-	dataPath, jsonPath := filepath.Join(home, "data.json"), filepath.Join(home, "t.json")
+	dataPath := filepath.Join(home, "data.json")
 	env := append(os.Environ(), "HOME="+home, "XDG_CONFIG_HOME="+filepath.Join(home, "cfg"), "XDG_CACHE_HOME="+filepath.Join(home, "cache"), "XDG_DATA_HOME="+filepath.Join(home, "data"),
 		"OCTOSQL_NO_TELEMETRY=1", "OCTOSQL_PLUGIN_DIR="+filepath.Join(home, "p"), "OCTOSQL_PLUGIN_TMP_DIR="+filepath.Join(home, "s"), "VERIF_C26_DATA="+dataPath)
 
-	n := f.Cases(14, 120)
+	n := f.Cases(21, 126)
 	var table e2eTable
 	var lines []string
+	kind := "csv"
 	for i := 0; i < n; i++ {
 		r := rng.Fork()
 		if i%7 == 0 {
-			table, lines = genE2ETable(r)
+			kind = "csv"
+			if i%21 == 14 {
+				kind = "json"
+			}
+			table, lines = genE2ETable(r, kind)
 			b, _ := json.Marshal(map[string]interface{}{"Tables": map[string]e2eTable{"t": table}})
 			os.WriteFile(dataPath, b, 0o644)
-			os.WriteFile(jsonPath, []byte(strings.Join(lines, "\n")+"\n"), 0o644)
+			os.WriteFile(filepath.Join(home, "t."+kind), []byte(strings.Join(lines, "\n")+"\n"), 0o644)
 		}
 		pred := genPredicate(r)
 		if i%7 == 0 {
 			pred = "t.a IN (0, 1, 2)" // the tuple variant of "in" at least once per table
+		} else if i%7 == 1 {
+			pred = "t.s NOT IN ('a', 'ab')"
 		}
 		qPlugin := "SELECT t.a, t.s, t.f, t.ok, t.n FROM vt.t t WHERE " + pred
-		qNative := "SELECT t.a, t.s, t.f, t.ok, t.n FROM " + jsonPath + " t WHERE " + pred
+		qNative := "SELECT t.a, t.s, t.f, t.ok, t.n FROM " + filepath.Join(home, "t."+kind) + " t WHERE " + pred
 		pr, nr := runCLI(cli, env, qPlugin), runCLI(cli, env, qNative)
 		same := pr.Exit == nr.Exit && strings.Join(pr.Rows, "\n") == strings.Join(nr.Rows, "\n")
-		idx := cf.Add("KQuery "+lib.CoqBool(same), map[string]interface{}{"kind": "e2e_query", "predicate": pred, "table": lines,
+		idx := cf.Add("KQuery "+lib.CoqBool(same), map[string]interface{}{"kind": "e2e_query", "native_source": kind, "predicate": pred, "table": lines,
 			"plugin": pr, "native": nr}, len(nr.Rows) > 0 && len(nr.Rows) < len(lines))
 		_ = idx
-		cf.Count("e2e_query")
+		cf.Count("e2e_query_vs_" + kind)
 		if nr.Exit != 0 {
 			cf.Count("e2e_native_query_failed")
 		}
